@@ -109,5 +109,26 @@ def build(E):
         else:
             val = int(s.lstrip('-')) * (10 ** V.precision if V.precision else 1) if V.precision == 0 else int(s.lstrip('-')) * 10 ** V.precision
         return -val if neg else val
-    X['report'] = parse_report(E.report(), E.rule.quota_name, toint)
+    rep_text = E.report()
+    X['report'] = parse_report(rep_text, E.rule.quota_name, toint)
+    # record header vs JSON header vs report header
+    hk = ('title', 'rule_name', 'method', 'arithmetic_name', 'seats', 'nballots', 'quota', 'droop_version')
+    X['hdr'] = {k: _s(rec.get(k)) for k in hk}
+    X['hdr']['cids'] = [int(c) for c in rec.get('cids', [])]
+    X['hdr']['ecids'] = [int(c) for c in rec.get('ecids', [])]
+    try:
+        X['jhdr'] = {k: _s(J.get(k)) for k in hk}
+        X['jhdr']['cids'] = [int(c) for c in J.get('cids', [])]
+        X['jhdr']['ecids'] = [int(c) for c in J.get('ecids', [])]
+    except Exception:
+        X['jhdr'] = dict(X['hdr'], title='<json unreadable>')
+
+    def hline(prefix):
+        for l in rep_text.split('\n'):
+            if l.startswith(prefix):
+                return l[len(prefix):]
+        return ''
+    X['rhdr'] = dict(title=hline('Election: '), seats=hline('\tSeats: '), nballots=hline('\tBallots: '), quota=hline('\t%s: ' % E.rule.quota_name),
+                     rule_info=hline('\tRule: '), arithmetic_info=hline('\tArithmetic: '))
+    X['rinfo'] = dict(rule_info=_s(rec.get('rule_info')), arithmetic_info=_s(rec.get('arithmetic_info')))
     return X
